@@ -645,7 +645,7 @@ class C12(Sim):
                 if nb >= MAX_BOXES:
                     return {"op": "do_intersect", "b": [k, k2]}
                 ev["id"] = self.next_box
-                ev["how"] = r.choice(["static", "operator"])
+                ev["how"] = r.choice(["static", "operator", "augmented"])
             return ev
         if op in ("contains", "project", "bdistance"):
             cands = self.ids_dim(ref.dim)
@@ -829,7 +829,7 @@ class C12(Sim):
             if others:
                 ev = {"op": r.choice(["union", "inter", "do_intersect"]), "b": [k, r.choice(others)], "bad": True}
                 if ev["op"] != "do_intersect":
-                    ev["id"], ev["how"] = self.next_box, r.choice(["static", "operator"])
+                    ev["id"], ev["how"] = self.next_box, r.choice(["static", "operator", "augmented"])
                 return ev
             if len(self.box) < MAX_BOXES:
                 return {"op": "box_unit", "id": self.next_box, "dim": self.ref[k].dim % 4 + 1, "centered": False}
@@ -1118,6 +1118,11 @@ class C12(Sim):
             fn, args = self.AABB.do_intersect, (b1, b2)
         elif ev.get("how") == "operator":
             fn, args = (b1.__or__ if name == "union" else b1.__and__), (b2,)
+        elif ev.get("how") == "augmented":
+            # `acc |= b` / `acc &= b` as a caller writes them: a NEW box unless the class defines in-place operators - and then the statement
+            # still holds: no box other than the documented target, and no caller array, may change (b1 itself is not a documented target)
+            import operator
+            fn, args = (operator.ior if name == "union" else operator.iand), (b1, b2)
         else:
             fn, args = (self.AABB.union if name == "union" else self.AABB.intersection), (b1, b2)
         return self._call(ev, fn, *args, boxes=(k1, k2))
